@@ -2,15 +2,23 @@
 // bounded.  Part (a) of DESIGN §5 C19: explicit-state exploration of the real
 // chain/app/evm ethTxPool (inside a real EVMApp) and of the real
 // gemmill/mempool.Mempool against a reference model written from the property.
-// Part (b) (SCHED interleavings, evictions under virtual time) is not built
-// here; the evidence says so.
+// Part (b) for the gemmill mempool (SCHED: interleavings of concurrent
+// submitters with the commit path) is a separate binary (props/c19sched, built
+// with the import-rewriting overlay by prebuild.sh); runSchedPart runs it and
+// merges its evidence and violations.  Not built: part (b) for ethTxPool and
+// its evictions under virtual time; the evidence says so.
 package main
 
 import (
+	"encoding/json"
 	"fmt"
+	"io/ioutil"
 	"os"
+	"os/exec"
+	"path/filepath"
 	"runtime/debug"
 	"runtime/pprof"
+	"strings"
 	"sync"
 	"sync/atomic"
 	"time"
@@ -147,6 +155,9 @@ func main() {
 	}
 
 	if run.ReplayPath != "" {
+		if replaySched(run) {
+			return
+		}
 		var k poolCase
 		if err := run.ReplayCase(&k); err != nil {
 			core.Fatal("cannot load replay: %v", err)
@@ -301,18 +312,160 @@ func main() {
 		"rule": "BFS over histories of letters (ReceiveTx of each tx of the alphabet, commit selections of the pool's own Reap(-1) executed as a real block + Update + OnCommit, Flush, observer letter) up to the stated depth per system/configuration; " +
 			"every (unique state, letter) pair is executed on a real instance (replay + letter) and followed by the observers Reap(0|1|2|-1), Size, GetPendingMaxNonce; every unique state additionally gets a drain probe (reap all/commit all until nothing is offered) that decides the no-loss clause; " +
 			"states are deduplicated by the canonical key (see canon in evmpool.go / mpool.go), merged alternatives are re-expanded for the merge oracle (first observer-ending alternative + one other per key); distinct_nontrivial counts distinct (pool, letter kind, outcome) classes, distinct_observations distinct canonical observation texts",
-		"not_covered": "part (b) of DESIGN C19: interleavings of concurrent submitters with the commit path (SCHED) and the waiting-queue evictions of ethTxPool.loop (one-minute ticker, reachable only under virtual time) are NOT explored by this driver; admin-op list at its size limit (needs 10 admin-op txs); tx filters (RegisterFilter) and the mempool WAL; txs that are invalid for the application for reasons other than the nonce",
+		"not_covered": "part (b) of DESIGN C19 is built for the gemmill mempool only (coverage.sched): interleavings of concurrent submitters with the commit path of ethTxPool and the waiting-queue evictions of ethTxPool.loop (one-minute ticker, reachable only under virtual time) are NOT explored by this driver; admin-op list at its size limit (needs 10 admin-op txs); tx filters (RegisterFilter) and the mempool WAL; txs that are invalid for the application for reasons other than the nonce",
 	}
 	if mmis > 0 && run.Violations() == 0 {
 		core.Fatal("merge oracle failed %d times: the canonical key is unsound: %v", mmis, run.Notes[0])
 	}
-	run.Finish(cov, []string{
+	schedAssumptions := runSchedPart(run, cov)
+	run.Finish(cov, append([]string{
 		"each history runs with fresh account keys on a long-lived application instance whose pool is brought back to empty with Flush and verified empty through the read-only snapshot (a new application instance is opened otherwise): the pool uses addresses only as map keys",
 		"accounts are unfunded (the chain has no balances); txs are zero-value calls of a code-less address with gas price 0, so a tx is executable iff its nonce is the state nonce",
 		"ethTxPool limits are those the configuration yields (block_size=1 ⇒ 10 pending, 10 waiting, 10 admin-op); configuration B reaches them by starting every history from a pre-filled pool (18 real ReceiveTx calls), because no smaller positive limit can be configured",
 		"no-loss is judged by draining (delayed promotion is not a drop); where the model cannot exclude that the documented capacity rule evicted a tx (pool possibly at its waiting limit) the obligation for larger-nonce txs of that account is lifted",
 		"gemmill mempool: order clause read as acceptance order (the pool cannot see accounts or nonces)",
-	})
+	}, schedAssumptions...))
+}
+
+// runSchedPart runs part (b), the controlled-scheduler exploration of the
+// gemmill mempool (props/c19sched, a separate binary because it is built with
+// the import-rewriting overlay), in a private root and merges its evidence and
+// violations into this run.  Returns the assumptions of that part.
+func runSchedPart(run *core.Run, cov core.Coverage) []string {
+	if only := os.Getenv("VERIF_C19_ONLY"); only != "" && only != "sched" {
+		return nil
+	}
+	bin := schedBin()
+	if alt := os.Getenv("VERIF_C19SCHED_BIN"); alt != "" {
+		bin = alt
+	}
+	if _, err := os.Stat(bin); err != nil {
+		core.Fatal("the SCHED binary %s is missing (props/c19/prebuild.sh builds it)", bin)
+	}
+	sub := filepath.Join(run.WorkDir(), "schedroot")
+	os.RemoveAll(sub)
+	os.MkdirAll(sub, 0755)
+	if b, err := ioutil.ReadFile(filepath.Join(core.Root, "known_findings.txt")); err == nil {
+		ioutil.WriteFile(filepath.Join(sub, "known_findings.txt"), b, 0644)
+	}
+	cmd := exec.Command(bin, run.Tier)
+	cmd.Env = append(os.Environ(), "VERIF_ROOT="+sub, "VERIF_TIER="+run.Tier, "C19B_RACE_BIN="+filepath.Join(filepath.Dir(bin), "c19race"))
+	out, err := cmd.CombinedOutput()
+	code := 0
+	if ee, ok := err.(*exec.ExitError); ok {
+		code = ee.ExitCode()
+	} else if err != nil {
+		core.Fatal("cannot run the SCHED part (%s): %v", bin, err)
+	}
+	if code != 0 && code != 1 {
+		tail := string(out)
+		if len(tail) > 3000 {
+			tail = tail[len(tail)-3000:]
+		}
+		core.Fatal("SCHED part failed with exit %d:\n%s", code, tail)
+	}
+	var ev struct {
+		Coverage    map[string]interface{} `json:"coverage"`
+		Assumptions []string               `json:"assumptions"`
+	}
+	if b, err := ioutil.ReadFile(filepath.Join(sub, "evidence", "C19.json")); err == nil {
+		json.Unmarshal(b, &ev)
+	}
+	if ev.Coverage == nil {
+		core.Fatal("SCHED part left no evidence (exit %d)", code)
+	}
+	cov["sched"] = ev.Coverage
+	for _, k := range []string{"states", "transitions", "traces_validated_against_impl", "evaluations"} {
+		a, ok1 := cov[k].(int64)
+		b, ok2 := ev.Coverage[k].(float64)
+		if ok1 && ok2 {
+			cov[k] = a + int64(b)
+		}
+	}
+	if ex, ok := ev.Coverage["exhaustive"].(bool); ok && !ex {
+		cov["sched_exhaustive"] = false
+	}
+	for _, l := range strings.Split(string(out), "\n") {
+		if strings.HasPrefix(l, "KNOWN-FINDING:") {
+			fmt.Println(l)
+		}
+	}
+	arts, _ := filepath.Glob(filepath.Join(sub, "replays", "C19", "*.json"))
+	for _, a := range arts {
+		b, err := ioutil.ReadFile(a)
+		if err != nil {
+			continue
+		}
+		var art struct {
+			Sig    map[string]string `json:"sig"`
+			Case   json.RawMessage   `json:"case"`
+			Detail string            `json:"detail"`
+		}
+		if json.Unmarshal(b, &art) != nil {
+			continue
+		}
+		if art.Sig == nil {
+			art.Sig = map[string]string{}
+		}
+		art.Sig["part"] = "sched"
+		run.Report(art.Sig, map[string]interface{}{"engine": "SCHED", "sched_case": art.Case}, art.Detail)
+	}
+	if code == 1 && len(arts) == 0 {
+		core.Fatal("SCHED part reported a violation but left no artefact")
+	}
+	if os.Getenv("VERIF_MUT_ROOT") != "" && os.Getenv("VERIF_C19SCHED_BIN") == "" && os.Getenv("SEED_KEEP") == "" && strings.HasPrefix(filepath.Base(filepath.Dir(bin)), "c19sched-mut-") {
+		// single-use build of a seeded run (kept with SEED_KEEP=1 so that its artefacts can be replayed)
+		os.RemoveAll(filepath.Dir(bin))
+	}
+	return ev.Assumptions
+}
+
+// replaySched hands a SCHED artefact to the SCHED binary.
+func replaySched(run *core.Run) bool {
+	b, err := ioutil.ReadFile(run.ReplayPath)
+	if err != nil {
+		return false
+	}
+	var art struct {
+		Case struct {
+			Engine    string          `json:"engine"`
+			SchedCase json.RawMessage `json:"sched_case"`
+		} `json:"case"`
+		Sig    map[string]string `json:"sig"`
+		Detail string            `json:"detail"`
+	}
+	if json.Unmarshal(b, &art) != nil || art.Case.Engine != "SCHED" {
+		return false
+	}
+	tmp := filepath.Join(run.WorkDir(), "sched-replay.json")
+	nb, _ := json.Marshal(map[string]interface{}{"property": "C19", "engine": "SCHED", "sig": art.Sig, "case": art.Case.SchedCase, "detail": art.Detail})
+	ioutil.WriteFile(tmp, nb, 0644)
+	bin := schedBin()
+	cmd := exec.Command(bin, "replay", tmp)
+	cmd.Stdout, cmd.Stderr = os.Stdout, os.Stderr
+	err = cmd.Run()
+	if ee, ok := err.(*exec.ExitError); ok {
+		os.Exit(ee.ExitCode())
+	}
+	os.Exit(0)
+	return true
+}
+
+// schedBin locates the SCHED binary that props/c19/prebuild.sh built: below
+// the .work directory this binary itself lives in (VERIF_ROOT may be a private
+// root), in a directory of its own for seeded runs (VERIF_MUT_ROOT).
+func schedBin() string {
+	work := filepath.Join("/verif", ".work")
+	if self, err := os.Executable(); err == nil {
+		if d := filepath.Dir(filepath.Dir(self)); filepath.Base(d) == ".work" {
+			work = d
+		}
+	}
+	dir := "c19sched"
+	if m := os.Getenv("VERIF_MUT_ROOT"); m != "" {
+		dir += "-mut-" + filepath.Base(m)
+	}
+	return filepath.Join(work, dir, "bin-for-c19")
 }
 
 // deadlineFor: in the thorough tier the systems share one budget; in the quick
